@@ -74,6 +74,13 @@ fn registry() -> Vec<CheckDef>
 			case_timeout_ms: 20_000,
 			level_text: "exhaustive enumeration (up to renaming of labels) of all function bodies built from two labels, gotos, conditional gotos and nested blocks up to a size bound, each compiled by the real first-generation pipeline and judged against a reference label-scoping model: verdict, codes and the lines the diagnostics point at",
 		},
+		CheckDef {
+			id: "C06",
+			drive: checks::c06::drive,
+			work: checks::c06::work,
+			case_timeout_ms: 20_000,
+			level_text: "exhaustive enumeration of all statement trees over {block, if, if-else, else-if chains, goto, loop, assignment, label} up to a size and nesting bound, each compiled by the real first-generation pipeline and compared with a reference placement model: verdict, codes E800/E801/E840 with their lines, and the exact set of L1800 lints",
+		},
 	]
 }
 
